@@ -25,7 +25,8 @@ def sh(cmd, **kw):
 
 
 def run_seed(sdir):
-    name = os.path.basename(sdir.rstrip('/'))
+    parts = sdir.rstrip('/').split('/')
+    name = parts[-1] if not parts[-1].isdigit() else '%s-r%s' % (parts[-2], parts[-1])
     wt = os.path.join(SCRATCH, 'wt-' + name)
     out = os.path.join(SCRATCH, 'out-' + name)
     sh('git -C /repo worktree remove --force %s' % wt)
